@@ -73,6 +73,12 @@ func VF_C14_Pair() {
 		if approve {
 			api = func() { _ = e.node.ApproveParticipation(&dto.OperationIdDTO{OperationID: pend.ID}) }
 		}
+		if vf.Param("api") == "reset" {
+			// the operator resets the state (a new, empty state database takes over) while the poller is at work
+			vfCleanup(path + "_reset")
+			defer vfCleanup(path + "_reset")
+			api = func() { _, _ = e.fsm.ResetFSMState(&dto.ResetStateDTO{NewStateDBDSN: path + "_reset"}) }
+		}
 		switch mode {
 		case 0:
 			poller()
@@ -88,7 +94,15 @@ func VF_C14_Pair() {
 	ab := run("ab", 0)
 	ba := run("ba", 1)
 	il := run("il", 2)
-	vf.Assert("serializable:operation/"+ev, vf.Or(vf.Eq(il, ab), vf.Eq(il, ba)))
+	apiName := "operation"
+	if vf.Param("api") == "reset" {
+		apiName = "reset"
+	}
+	vf.Assert("serializable:"+apiName+"/"+ev, vf.Or(vf.Eq(il, ab), vf.Eq(il, ba)))
+	if apiName == "reset" {
+		vf.Assert("witness", false)
+		return
+	}
 	// the specific losses the statement names
 	for id := range ab.Pub.Ops {
 		if _, both := ba.Pub.Ops[id]; both {
